@@ -1,5 +1,5 @@
 import Got.Model.Ants
-/- helper lemmas for the ants model (C07, C08) -/
+/- helper lemmas for the ants model (C07, C08): the per-task inductive invariant `TaskOK` -/
 namespace Got.Model.Ants
 
 /-- a run that succeeds ends in its `getD` state (lets `decide` discharge concrete witnesses) -/
@@ -8,5 +8,68 @@ theorem run_eq_some_getD {c : Cfg} {acts : List Act} (h : (run c init acts).isSo
   cases hr : run c init acts with
   | none => simp [hr] at h
   | some s => simp
+
+/-! ### classification of program counters -/
+def CPc.isWrite : CPc → Bool | .write _ _ _ => true | _ => false
+def CPc.fin : CPc → Bool | .closing _ | .closed => true | _ => false
+def CPc.afterCas : CPc → Bool | .write _ _ _ | .closing _ | .closed => true | _ => false
+def CPc.pair? : CPc → Option (Val × Err)
+  | .returned _ v e | .hook1 _ v e | .cas _ v e | .write _ v e => some (v, e)
+  | _ => Option.none
+def CPc.live : CPc → Bool | .hook1 _ _ _ | .cas _ _ _ | .write _ _ _ => true | _ => false
+def CPc.started : CPc → Bool | .none | .queued | .taken _ => false | _ => true
+
+def TPc.pre : TPc → Bool
+  | .none | .sendTest | .discardCb | .discarded | .enq | .queued => true | _ => false
+def TPc.waiting : TPc → Bool | .hook3 | .select | .hook2 | .decide | .waitDone => true | _ => false
+def TPc.preDecide : TPc → Bool | .sendCl | .hook3 | .select | .hook2 | .decide => true | _ => false
+def TPc.post : TPc → Bool | .errTest | .loopTest | .onError | .wgDone | .done => true | _ => false
+def TPc.fin : TPc → Bool | .wgDone | .done => true | _ => false
+
+/-- invariant of one attempt record, independent of the rest of the task -/
+def AttOK (x : Att) : Prop :=
+  (x.closedCh = true ↔ x.pc = .closed) ∧
+  (∀ p, x.pc.pair? = some p → x.ret = some p) ∧
+  (x.pc.live = true → x.sawLive = true) ∧
+  (x.decided = 1 → x.sawLive = true ∧ x.ret.isSome = true ∧ x.pc.afterCas = true) ∧
+  (x.pc.isWrite = true → x.decided = 1) ∧
+  x.decided ≤ 2 ∧
+  x.starts = (if x.pc.started then 1 else 0)
+
+theorem attOK_default : AttOK {} := by
+  simp [AttOK, CPc.pair?, CPc.live, CPc.afterCas, CPc.isWrite, CPc.started]
+
+theorem attOK_fresh (d b : Nat) : AttOK { deadline := d, beginAt := b } := by
+  simp [AttOK, CPc.pair?, CPc.live, CPc.afterCas, CPc.isWrite, CPc.started]
+
+def sumStarts (f : Nat → Att) : Nat → Nat
+  | 0 => 0
+  | n + 1 => sumStarts f n + (f n).starts
+
+theorem sumStarts_upd_ge (f : Nat → Att) (a : Nat) (x : Att) (n : Nat) (h : n ≤ a) :
+    sumStarts (upd f a x) n = sumStarts f n := by
+  induction n with
+  | zero => rfl
+  | succ m ih =>
+    have : m ≠ a := by omega
+    simp [sumStarts, ih (by omega), upd, this]
+
+theorem sumStarts_upd_lt (f : Nat → Att) (a : Nat) (x : Att) (n : Nat) (h : a < n) :
+    sumStarts (upd f a x) n + (f a).starts = sumStarts f n + x.starts := by
+  induction n with
+  | zero => omega
+  | succ m ih =>
+    by_cases hm : m = a
+    · subst hm
+      simp [sumStarts, sumStarts_upd_ge f m x m (Nat.le_refl _), upd]
+      omega
+    · have := ih (by omega)
+      simp [sumStarts, upd, hm]
+      omega
+
+theorem sumStarts_le (f : Nat → Att) (n : Nat) (h : ∀ a, (f a).starts ≤ 1) : sumStarts f n ≤ n := by
+  induction n with
+  | zero => simp [sumStarts]
+  | succ m ih => have := h m; simp [sumStarts]; omega
 
 end Got.Model.Ants
